@@ -69,7 +69,7 @@ def gen_history(rng, n_ops):
             reform = None
             if not old and rng.random() < 0.3:
                 reform = dict(group=GROUPS[int(rng.integers(0, len(GROUPS)))]) if rng.random() < 0.5 else \
-                    dict(function=REFORM_FUNCS[int(rng.integers(0, len(REFORM_FUNCS)))])
+                    dict(function=REFORM_FUNCS[int(rng.integers(0, len(REFORM_FUNCS)))], form=["dict", "list_func", "list_dict"][int(rng.integers(0, 3))])
             tg = OLD_TARGETS[int(rng.integers(0, len(OLD_TARGETS)))] if old else TARGET_SETS[int(rng.integers(0, len(TARGET_SETS)))]
             call = dict(date=d, reform=reform,
                         pop=dict(seed=int(rng.integers(0, 3)), n_hh=int(rng.choice([3, 6])), corner=[None, "huge"][int(rng.integers(0, 2))],
